@@ -273,6 +273,9 @@ def run_property(prop, tier, seed, budget_s=None):
     t0 = time.time()
     os.environ.setdefault("VERIF_RUN_ID", str(os.getpid()))
     n_self = O.selftest(random.Random(seed))
+    if prop.ID in ("C12", "C13", "C16"):
+        from . import hard
+        n_self += hard.selftest()          # the modular-interval solver against brute force
     bins = []
     for profile, feats in prop.BUILDS[tier]:
         bins.append((build_name(profile, feats), B.build(profile, feats)))
